@@ -7,26 +7,34 @@ A state is identified by the history that reaches it (live objects are rebuilt b
      "enabled": [op, ...]            # operations enabled in the reached state (per the reference model)
      "outcome": small hashable observation (for the distinct-outcome count)}
 Every prefix of a history is itself a history that was checked earlier, so only the last step is judged.
-Histories up to `forced_depth` are all executed even when the state hash says "seen"; beyond that a state is
+All histories of length <= `forced_depth` are executed even when the state hash says "seen"; beyond that a state is
 expanded once.
 """
 from __future__ import annotations
 
-from .core import pmap, short_hash
+from .core import pmap, run_forked, short_hash
 
 
 def _run_chunk(args):
-    run_history, hists = args
+    run_history, hists, isolate = args
     out = []
     for h in hists:
-        r = run_history(h)
+        # isolate: every history starts from a pristine copy of the parent process (module-level caches, class
+        # attributes and counters cannot leak from one history into the next)
+        r = run_forked(run_history, h) if isolate else run_history(h)
         out.append((h, short_hash(r["canon"]), r["fails"], r["enabled"], short_hash(r.get("outcome", r["canon"]))))
     return out
 
 
 def bfs(ctx, name, run_history, max_depth, forced_depth, kind, payload_of=lambda h: {"history": list(h)},
-        chunk=200, log_every=True):
+        chunk=200, log_every=True, isolate=False):
     r0 = run_history(())
+    for sig, detail in r0["fails"]:
+        ctx.fail(kind, payload_of(()), sig, detail, weight=0)
+    if r0["fails"]:
+        ctx.count(states=1, transitions=1, traces=1)
+        ctx.part(name, states=1, transitions=1, depth_completed=0, forced_depth=forced_depth, frontier_left=0)
+        return 1, 1
     seen = {short_hash(r0["canon"])}
     frontier = [((), r0["enabled"])]
     states, transitions = 1, 0
@@ -38,7 +46,7 @@ def bfs(ctx, name, run_history, max_depth, forced_depth, kind, payload_of=lambda
             break
         chunks = [cands[i:i + chunk] for i in range(0, len(cands), chunk)]
         nxt = []
-        for res in pmap(_run_chunk, [(run_history, c) for c in chunks], ctx.workers, ordered=True):
+        for res in pmap(_run_chunk, [(run_history, c, isolate) for c in chunks], ctx.workers, ordered=True):
             for h, canon, fails, enabled, outcome in res:
                 transitions += 1
                 ctx.outcomes.add(outcome)
@@ -48,7 +56,7 @@ def bfs(ctx, name, run_history, max_depth, forced_depth, kind, payload_of=lambda
                 if new:
                     seen.add(canon)
                     states += 1
-                if (new or depth <= forced_depth) and not fails:
+                if (new or depth < forced_depth) and not fails:
                     nxt.append((h, enabled))
                     sample_hist = h
         frontier = nxt
